@@ -350,6 +350,10 @@ def run(ctx):
         and all(h.type is None or ast.unparse(h.type) in ("Exception", "BaseException") for h in tries[0].handlers) \
         and any("lstsq" in ast.unparse(st) for st in fu.node.body if st is not tries[0])
     ctx.expect(okh, "R05.6", "solve_newton_update", "the Cholesky failure is caught broadly and followed by the least-squares solve", fu.loc())
+    # ------------------------------------------------------------------ R05.7 module-level solver defaults stay defaults
+    from ..sharedstate import shared_default_rule
+    shared_default_rule(ctx, "R05.7", ("wavespectra.estimators",))
+    ctx.require_count("R05.7", 1)
     ctx.require_count("R05.1", 3)
     ctx.require_count("R05.2", 4)
     ctx.require_count("R05.3", 10)
